@@ -41,6 +41,7 @@ var dVariants = []variant{
 	{"exit-trapped", "exit", "pid", gen.MessagePriorityNormal, true, 1},
 	{"log", "log", "pid", gen.MessagePriorityNormal, false, 1},
 	{"log-proc", "log", "pid", gen.MessagePriorityNormal, true, 1},
+	{"via-meta", "viameta", "pid", gen.MessagePriorityNormal, false, 1},
 }
 
 type dctx struct {
@@ -53,6 +54,7 @@ type dctx struct {
 	wakes   atomic.Int64
 	reacq   atomic.Int64
 	nextS   uint32
+	malias  gen.Alias // meta process of the receiver (variant via-meta)
 	cmds    []*sendCmd
 	senders []gen.PID
 	sinsts  []*actors.Inst
@@ -74,6 +76,9 @@ func (d *dctx) fire(v variant) *sendCmd {
 	cmd := &sendCmd{Kind: v.kind, To: d.addrOf(v.addr), Prio: v.prio, S: d.nextS, N: 1, EvName: d.ev, EvToken: d.token, CallTimeout: 2, Done: make(chan struct{})}
 	if v.kind == "exit" || v.kind == "event" {
 		cmd.To = d.rc.pid
+	}
+	if v.kind == "viameta" {
+		cmd.To = d.malias
 	}
 	d.cmds = append(d.cmds, cmd)
 	if v.proc {
@@ -198,6 +203,36 @@ func runDirected(dc dcase) {
 		}
 		defer node.LoggerDeletePID(rc.pid)
 	}
+	var metas []gen.Alias
+	if dc.v.kind == "viameta" {
+		m := actors.NewMeta(id+"/meta", metaHooksFor(c))
+		ch := make(chan gen.Alias, 1)
+		node.Send(rc.pid, spawnMeta{M: m, Done: ch})
+		select {
+		case a, ok := <-ch:
+			if !ok {
+				r.incon = "spawn meta failed"
+			}
+			d.malias = a
+		case <-time.After(5 * time.Second):
+			r.incon = "spawn meta timeout"
+		}
+		if r.incon != "" {
+			finish(id, "directed", id, false, 0, r, nil)
+			killAll(all...)
+			return
+		}
+		<-m.Started
+		defer close(m.Stop)
+		metas = append(metas, d.malias)
+		insts = append(insts, m.I)
+		if q := quiesce(all, metas, insts, 10*time.Second); !q.ok {
+			r.incon = "not idle after meta spawn"
+			finish(id, "directed", id, false, 0, r, nil)
+			killAll(all...)
+			return
+		}
+	}
 	cancel1 := hk.Observe("proc.run.wake", hk.Eq(rc.pid), func(string, any) { d.wakes.Add(1) })
 	cancel2 := hk.Observe("proc.run.reacquire", hk.Eq(rc.pid), func(string, any) { d.reacq.Add(1) })
 	defer cancel1()
@@ -319,8 +354,12 @@ func runDirected(dc dcase) {
 		}
 		w0 := d.wakes.Load()
 		var cs []*sendCmd
+		over := dc.v
+		if over.kind == "viameta" {
+			over = dVariants[0] // the relaying meta process is serial and parked: the overtaking producer is a plain sender
+		}
 		for k := 0; k < dc.v.n; k++ {
-			cs = append(cs, d.fire(dc.v))
+			cs = append(cs, d.fire(over))
 		}
 		ok := true
 		for _, cmd := range cs {
@@ -343,7 +382,10 @@ func runDirected(dc dcase) {
 		select {
 		case <-cmd.Done:
 			c.record(cmd.Out)
-		case <-time.After(15 * time.Second):
+			if cmd.Harness != "" && r.incon == "" {
+				r.incon = cmd.Harness
+			}
+		case <-time.After(25 * time.Second):
 			if r.incon == "" {
 				r.incon = "watchdog: a send did not return"
 			}
@@ -352,7 +394,7 @@ func runDirected(dc dcase) {
 	all = append(all, d.senders...)
 	insts = append(insts, d.sinsts...)
 	if r.incon == "" {
-		applyQ(quiesce(all, nil, insts, 20*time.Second), r)
+		applyQ(quiesce(all, metas, insts, 20*time.Second), r)
 	}
 	if r.incon != "" {
 		finish(id, "directed", id, false, 0, r, map[string]any{"window": dc.window, "variant": dc.v.name, "size": dc.size, "fallback": dc.fb})
